@@ -1,0 +1,25 @@
+"""Verification hooks.
+
+Inert unless the environment variable COBRA_VERIF is "1" *and* an observer has been
+installed with `set_observer`; then `point(name, **fields)` hands the event to the
+observer.  Used by an external verification harness to watch linearisation points
+(context registration / reset, per-task steps of the parallel analyses).
+"""
+
+import os
+
+
+ENABLED = os.environ.get("COBRA_VERIF") == "1"
+_observer = None
+
+
+def set_observer(observer) -> None:
+    """Install (or with None remove) the callable that receives the events."""
+    global _observer
+    _observer = observer
+
+
+def point(name: str, **fields) -> None:
+    """Report an event to the installed observer (no-op by default)."""
+    if ENABLED and _observer is not None:
+        _observer(name, fields)
